@@ -27,7 +27,8 @@ CLAIM = ('Each tokenizer state method is translated into (atom -> ops, next stat
          'insensitively with C02.6 checking that emission lower-cases). Bulk reads, keyword look-ahead, '
          'appropriate-end-tag matching and duplicate-attribute resolution, the double-escape `script` tests, '
          "the CDATA terminator and the entity trie's longest-prefix candidate sequence are checked separately. "
-         'This decides the transition relation for all states and characters, which no test samples.')
+         'This decides the transition relation for all states and characters, which no test samples.'
+         " The CDATA guard compares the current node's namespace with the tree's default namespace, not with a constant.")
 NOT_DECIDED = ("newline normalisation and surrogate handling in the input stream (C05), correctness of the entity trie's "
                "search (C14 covers the tables), token positions, the character-reference sub-algorithm beyond C14's clauses.")
 MODULES = ["_tokenizer.py", "constants.py", "html5parser.py", "_trie/_base.py", "_trie/py.py", "_trie/__init__.py"]
